@@ -695,7 +695,7 @@ class Interp:
         self.effects: list = []
         self.inline_repo = inline_repo
         self.fold_classvars = fold_classvars
-        self.no_inline = set(no_inline or ())
+        self.no_inline = set(no_inline or ()) | {"flowjax.wrappers.unwrap"}
         self.stack: list[str] = []
         self.self_fields: dict | None = None  # when evaluating a constructor
         self.last_env = None
@@ -821,12 +821,16 @@ class Interp:
             fn = v.node
             a = fn.args
             names = [p.arg for p in a.posonlyargs + a.args + a.kwonlyargs]
-            if a.vararg or a.kwarg:
-                return ("unknown", f"reify varargs closure {v.name}")
             d = self.depth
             env = Env(v.env)
             for i, n in enumerate(names):
                 env.set(n, ("bv", d, i))
+            if a.vararg:
+                env.set(a.vararg.arg, ("varargs", ("bv", d, len(names))))
+                names = names + ["*" + a.vararg.arg]
+            if a.kwarg:
+                env.set(a.kwarg.arg, ("varkw", ("bv", d, len(names))))
+                names = names + ["**" + a.kwarg.arg]
             self.depth += 1
             self.inline_depth += 1
             try:
@@ -934,7 +938,14 @@ class Interp:
         elif isinstance(st, ast.Expr):
             self.exec_expr_stmt(st.value, env, ctx)
         elif isinstance(st, (ast.FunctionDef,)):
-            env.set(st.name, Closure(st, env, ctx, st.name))
+            val = Closure(st, env, ctx, st.name)
+            for dec in reversed(st.decorator_list):
+                d = self.eval(dec, env, ctx)
+                # functools.wraps(f) only copies metadata: transparent
+                if isinstance(d, tuple) and d[0] == "call" and d[1] == ("ext", "functools.wraps"):
+                    continue
+                val = self.call(d, [val], {}, ctx)
+            env.set(st.name, val)
         elif isinstance(st, ast.ClassDef):
             env.set(st.name, ("localclass", st.name))
         elif isinstance(st, ast.For):
@@ -1218,6 +1229,10 @@ class Interp:
                                    if isinstance(v, ast.FormattedValue)))
         if isinstance(node, ast.Starred):
             return ("star", self.ev(node.value, env, ctx))
+        if isinstance(node, (ast.Yield, ast.YieldFrom)):
+            v = self.ev(node.value, env, ctx) if node.value is not None else NONE
+            self.effects.append(("yield", v))
+            return NONE
         if isinstance(node, ast.NamedExpr):
             v = self.ev_any(node.value, env, ctx)
             self.assign(node.target, v, env, ctx)
@@ -1246,7 +1261,11 @@ class Interp:
             if conds:
                 cond = conds[0] if len(conds) == 1 else ("and", tuple(conds))
                 src = ("filter", ("lam", 1, cond), it)
-            return ("map", ("lam", 1, body), src)
+            lam = ("lam", 1, body)
+            if not conds and it[0] in ("tuple", "list") and not any(x[0] == "star" for x in it[1]):
+                # comprehension over a literal sequence: expand elementwise
+                return ("list", tuple(self.beta(lam, [x]) for x in it[1]))
+            return ("map", lam, src)
 
         return build(0, env)
 
@@ -1284,6 +1303,8 @@ class Interp:
             r = self.prog.find_method(ctx[1], name)
             if r and name not in r[0].properties:
                 return BoundMethod(r[0], r[1], ctx[1], ctx[2], name)
+        if name == "__name__" and obj[0] == "attr":
+            return C(obj[2])
         if name == "T" and obj[0] != "sym":
             return ("call", ("ext", "jax.numpy.transpose"), (), (("a", obj),))
         return ("attr", obj, name)
